@@ -1,6 +1,6 @@
 (* C03 — Linked proofs share one secret key: what the verifier enforces. *)
 From Coq Require Import ZArith List.
-From Gabi Require Import ModArith GoSem ParamsDef ZkProof Keys HashTool RangeProof NonRev Core CoreTotal CoreSound.
+From Gabi Require Import ModArith GoSem ParamsDef ZkProof Keys HashTool RangeProof NonRev Core CoreTotal CoreSound SignedPow DiscloseComplete DiscloseExtract.
 Import ListNotations.
 Open Scope Z_scope.
 
@@ -33,3 +33,41 @@ Theorem secret_response_channel_closed :
   | PU p => ~ In 0 (keys (pu_MUser p))
   end.
 Proof. exact secret_response_channel_closed_lem. Qed.
+
+(* From equal responses to one secret: the algebraic half of the two-transcript extractor.
+   For an issuance commitment, two accepted transcripts (same U, same indices, same reconstructed commitment,
+   challenges c > c' > 0) give   S^dv * R_0^ds * prod R_i^(dm_i) = U^(c - c')  mod N   ([extractedU]). *)
+Theorem two_transcripts_give_commitment_relation :
+  forall pk, wf_pk pk -> forall p p' c c' z,
+  pu_U p = pu_U p' -> map fst (pu_MUser p) = map fst (pu_MUser p') ->
+  pu_C p = Some c -> pu_C p' = Some c' -> 0 < c' < c ->
+  reconstruct_ucommit pk p = Ok z -> reconstruct_ucommit pk p' = Ok z ->
+  exists ts, alignedU pk p p' ts /\ extractedU pk p p' c c' ts.
+Proof. exact issuance_two_transcripts_lem. Qed.
+
+(* Two disclosure proofs whose secret-key responses (index 0) are equal in both transcripts: in the relations
+   extracted for the two credentials (C01.two_transcripts_give_signature_relation) the exponent of R_0 is the same
+   number x - x', over the same challenge difference. *)
+Theorem linked_disclosures_share_exponent :
+  forall pk p1 p1' p2 p2' ts1 ts2 k1 k2 x x',
+  aligned pk p1 p1' ts1 -> aligned pk p2 p2' ts2 ->
+  nth_error (pd_AResp p1) k1 = Some (0, Some x) -> nth_error (pd_AResp p1') k1 = Some (0, Some x') ->
+  nth_error (pd_AResp p2) k2 = Some (0, Some x) -> nth_error (pd_AResp p2') k2 = Some (0, Some x') ->
+  exists t1 t2, nth_error ts1 k1 = Some t1 /\ nth_error ts2 k2 = Some t2 /\
+    s_b t1 = R_at pk 0 /\ s_b t2 = R_at pk 0 /\
+    s_es t1 - s_er t1 = x - x' /\ s_es t2 - s_er t2 = x - x'.
+Proof. exact linked_disclosures_share_exponent_lem. Qed.
+
+(* The same for an issuance commitment linked to a disclosure proof: the relation extracted for U carries the
+   exponent x - x' on R_0 that the credential's relation carries. *)
+Theorem linked_issuance_shares_exponent :
+  forall pk p1 p1' ts1 k1 pu pu' x x',
+  aligned pk p1 p1' ts1 ->
+  nth_error (pd_AResp p1) k1 = Some (0, Some x) -> nth_error (pd_AResp p1') k1 = Some (0, Some x') ->
+  pu_S pu = Some x -> pu_S pu' = Some x' ->
+  exists t1, nth_error ts1 k1 = Some t1 /\ s_b t1 = R_at pk 0 /\ s_es t1 - s_er t1 = x - x' /\
+    forall c c' ts2, extractedU pk pu pu' c c' ts2 ->
+      exists u v v', pu_U pu = Some u /\
+        sprod (pk_N pk) (fun t => s_es t - s_er t) (tm pk (pk_S pk) v v' :: tm pk (R_at pk 0) x x' :: ts2)
+          = powm (pk_N pk) u (c - c').
+Proof. exact linked_issuance_shares_exponent_lem. Qed.
